@@ -1433,8 +1433,8 @@ var c09Mutants = []Mutant{
 	{Name: "sweep-removes-reachable", File: "content/oci/oci.go", Old: "\t\t\tif !reachableNodes.Contains(blobDigest) {", New: "\t\t\tif !reachableNodes.Contains(blobDigest) || alg == \"sha512\" {",
 		Expect: "C09.R4.sweep-guard|(*~/content/oci.Store).GC|remove-only-unreachable"},
 	{Name: "reachable-set-before-reload", File: "content/oci/oci.go",
-		Old:    "\terr := s.gcIndex(ctx)\n\tif err != nil {\n\t\treturn fmt.Errorf(\"unable to reload index: %w\", err)\n\t}\n\treachableNodes := s.graph.DigestSet()\n",
-		New:    "\treachableNodes := s.graph.DigestSet()\n\terr := s.gcIndex(ctx)\n\tif err != nil {\n\t\treturn fmt.Errorf(\"unable to reload index: %w\", err)\n\t}\n",
+		Old:    "\terr := s.gcIndex(ctx)\n\tif err != nil {\n\t\treturn fmt.Errorf(\"unable to reload index: %w\", err)\n\t}\n\tif s.AutoSaveIndex {\n\t\tif err := s.saveIndex(); err != nil {\n\t\t\treturn err\n\t\t}\n\t}\n\treachableNodes := s.graph.DigestSet()\n",
+		New:    "\treachableNodes := s.graph.DigestSet()\n\terr := s.gcIndex(ctx)\n\tif err != nil {\n\t\treturn fmt.Errorf(\"unable to reload index: %w\", err)\n\t}\n\tif s.AutoSaveIndex {\n\t\tif err := s.saveIndex(); err != nil {\n\t\t\treturn err\n\t\t}\n\t}\n",
 		Expect: "C09.R4.sweep-guard|(*~/content/oci.Store).GC|reachable-set-after-gcIndex"},
 	{Name: "sweep-ignores-gcindex-error", File: "content/oci/oci.go",
 		Old:    "\terr := s.gcIndex(ctx)\n\tif err != nil {\n\t\treturn fmt.Errorf(\"unable to reload index: %w\", err)\n\t}\n",
